@@ -109,7 +109,7 @@ PROPS["C13"] = {
                              "httpserver_NewConfig", "httpserver_WithConfigCopy", "httpserver_Config_getMux", "httpserver_Config_createServer",
                              "httpserver_validateRoutes"],
     "lean_modules": ["GoSup.Props.C13", "GoSup.Props.C12L"],
-    "theorems": ["GoSup.Props.C12L.c13_same_untouched", "GoSup.Props.C12L.c13_changed_fresh", "GoSup.Props.C13.routesEqual_iff", "GoSup.Props.C13.configEqual_iff", "GoSup.Props.C13.configEqual_symm",
+    "theorems": ["GoSup.Props.C12L.c13_same_untouched", "GoSup.Props.C12L.c13_same_untouched_later", "GoSup.Props.C12L.c13_changed_fresh", "GoSup.Props.C13.routesEqual_iff", "GoSup.Props.C13.configEqual_iff", "GoSup.Props.C13.configEqual_symm",
                  "GoSup.Props.C13.c13_reload"],
     "ties": [],
     "legs": [{"name": "equal", "cmd": "equal"}, {"name": "httpsrv", "cmd": "httpsrv"}],
@@ -460,7 +460,7 @@ for _p in ("C09", "C10", "C11"):
     PROPS[_p]["ties"] = list(PROPS[_p].get("ties", [])) + ["GoSup.Tie.Lts.tie_comp_table"]
 PROPS["C11"]["lean_modules"].append("GoSup.Props.C09L")
 PROPS["C11"]["theorems"] += ["GoSup.Props.C09L.c11_restart_stops_first", "GoSup.Props.C09L.c09_one_live_generation",
-                             "GoSup.Props.C09L.c11_callback_failure_untouched", "GoSup.Props.C09L.c11_in_place",
+                             "GoSup.Props.C09L.c11_callback_failure_untouched", "GoSup.Props.C09L.c11_callback_failure_untouched_later", "GoSup.Props.C09L.c11_in_place",
                              "GoSup.Props.C09L.c11_restart_order"]
 PROPS["C11"]["level_text"] += (" Concurrent model CompLts: in every interleaving a restart reload boots the new children only after "
                                "the previous generation has been stopped and its context cancelled (c11_restart_stops_first, "
